@@ -43,7 +43,7 @@ func TestC05Rapid(t *testing.T) {
 		// make the escrow of the first bridge liquid so that claims are decided by finality
 		if b := w.bridges[1]; b != nil {
 			for _, d := range w.denoms {
-				w.e.Fund(ophosttypes.BridgeAddress(1), coinOf(d, 50_000_000))
+				w.e.Fund(escrowAddr(1), coinOf(d, 50_000_000))
 				b.addLedger(d, math.NewInt(50_000_000))
 			}
 		}
@@ -83,7 +83,7 @@ func TestC05Rapid(t *testing.T) {
 					}
 				} else if live != nil && st.ClaimOK && st.Out == live {
 					must, _ := w.finalByModel(b, live)
-					funded := w.e.Balance(ophosttypes.BridgeAddress(b.ID), st.Tuple.Denom).GTE(math.NewIntFromUint64(st.Tuple.Amount))
+					funded := w.e.Balance(escrowAddr(b.ID), st.Tuple.Denom).GTE(math.NewIntFromUint64(st.Tuple.Amount))
 					// paid was not updated (claim failed), so Paid tells whether it had been paid before
 					if must && funded && !b.Paid[st.Tuple.key()] {
 						rt.Fatalf("C05 violated at step %d: valid claim rejected although output %d has been final since %s: %v\nhistory:\n%s", i, live.Index, live.At.Add(b.Period), st.Res.Err, w.history())
@@ -107,6 +107,9 @@ func TestC05Rapid(t *testing.T) {
 				}
 				// finality of the target before the deletion (time does not move inside a step)
 				preMust, preMay = w.finalByModel(b, st.Out)
+				if _, seen := finalSeen[fmt.Sprintf("%d/%d", b.ID, st.Out.Index)]; st.Res.OK() && seen && !preMust {
+					rt.Fatalf("C05 violated at step %d: output %d was deleted at %s after the chain had already treated it as final (a withdrawal was paid against it or the last-finalized query named it)\nhistory:\n%s", i, st.OutIndex, now, w.history())
+				}
 				if st.Res.OK() && preMust {
 					rt.Fatalf("C05 violated at step %d: output %d deleted at %s although final since %s\nhistory:\n%s", i, st.OutIndex, now, st.Out.At.Add(b.Period), w.history())
 				}
@@ -117,9 +120,30 @@ func TestC05Rapid(t *testing.T) {
 					c.Class("delete-within-1s-of-boundary")
 				}
 			}
-			// (5)/(6): whatever has been seen final stays, unchanged, and LastFinalizedOutput agrees
+			// (5)/(6): whatever has been seen final stays, unchanged, and LastFinalizedOutput agrees.
+			// "Seen final" = final by the model, or treated as final by the chain itself: a claim against it
+			// was paid, or the last-finalized query named it (the one-second granularity cuts both ways).
+			if st.Kind == "claim" && st.Res.OK() && b != nil {
+				if live := liveOutputAt(b, st.OutIndex); live != nil {
+					k := fmt.Sprintf("%d/%d", b.ID, live.Index)
+					if _, ok := finalSeen[k]; !ok {
+						finalSeen[k] = c05Final{root: live.Root[:], l2: live.L2Block, at: live.At}
+						c.Class("final-observed-through-a-paid-claim")
+					}
+				}
+			}
 			for _, id := range w.ids {
 				mb := w.bridges[id]
+				if lf, err := w.e.Q.LastFinalizedOutput(w.e.Ctx, &ophosttypes.QueryLastFinalizedOutputRequest{BridgeId: id}); err == nil && lf.OutputIndex > 0 {
+					for _, o := range mb.Outputs {
+						if o.Index <= lf.OutputIndex {
+							k := fmt.Sprintf("%d/%d", id, o.Index)
+							if _, ok := finalSeen[k]; !ok {
+								finalSeen[k] = c05Final{root: o.Root[:], l2: o.L2Block, at: o.At}
+							}
+						}
+					}
+				}
 				for _, o := range mb.Outputs {
 					if must, _ := w.finalByModel(mb, o); must {
 						k := fmt.Sprintf("%d/%d", id, o.Index)
